@@ -4,7 +4,7 @@
    the code by the harness on every accepted URI; see DESIGN.md for the one recorded exception
    (a bracketed host starting with '/'). *)
 From Coq Require Import NArith ZArith List Bool.
-From StunV Require Import Base.ListAux Base.Outcome Model.Uri Proofs.UriProofs Proofs.UriRoundTripProofs.
+From StunV Require Import Base.ListAux Base.Outcome Model.Uri Proofs.UriProofs Proofs.UriRoundTripProofs Proofs.UriAcceptedProofs.
 Import ListNotations.
 Open Scope N_scope.
 
@@ -59,6 +59,15 @@ Theorem C17_accepted_roundtrip : forall s u, parse_uri s = Ok u -> host_ok (u_ho
   parse_uri (uri_string u) = Ok u.
 Proof. exact accepted_roundtrip. Qed.
 Print Assumptions C17_accepted_roundtrip.
+(* the host of every accepted URI is non-empty and made of usable characters; so an accepted URI
+   round-trips unless its host starts with '/' *)
+Theorem C17_accepted_host_usable : forall s u, parse_uri s = Ok u ->
+  u_host u <> [] /\ forallb hchar_ok (u_host u) = true.
+Proof. exact accepted_host_usable. Qed.
+Theorem C17_accepted_roundtrip_unless_slash : forall s u, parse_uri s = Ok u ->
+  starts_with ch_slash (u_host u) = false -> parse_uri (uri_string u) = Ok u.
+Proof. exact accepted_roundtrip_iff_no_slash. Qed.
+Print Assumptions C17_accepted_roundtrip_unless_slash.
 Example C17_roundtrip_nonvacuous :
   wf_uri (mkUri SchTURNS [58;58;49] 5349 PrTCP) /\ wf_uri (mkUri SchSTUN [101;120;46;111;114;103] 0 PrUDP) /\
   host_ok [47;120] = false.
